@@ -207,6 +207,8 @@ let run_lsim (dump : Stdlib.String.t list) (hist : Stdlib.String.t) (out : Buffe
     let l = ref (match read_chv2 dump with Some c -> set_chords2 (Some c) (init_layout pause) | None -> init_layout pause) in
     let tick = ref 0 in
     let last_keys = ref [] in
+    (* inputs and observations for the layered-keymap spec (C04 refinement theorem) *)
+    let spec_inputs = ref [] and spec_obs = ref [] in
     (try
       List.iter (fun tok ->
         if tok <> "" then begin
@@ -215,12 +217,17 @@ let run_lsim (dump : Stdlib.String.t list) (hist : Stdlib.String.t) (out : Buffe
           | 'p' | 'r' ->
             (match String.split_on_char ',' rest with
              | [x; y] ->
-               l := unwrap (layout_event2 cfg !l (kind = 'p') (n_of_int (int_of_string x), n_of_int (int_of_string y)))
+               let c = (n_of_int (int_of_string x), n_of_int (int_of_string y)) in
+               l := unwrap (layout_event2 cfg !l (kind = 'p') c);
+               spec_inputs := KmEvent (kind = 'p', c) :: !spec_inputs;
+               spec_obs := List.map int_of_n (keycodes !l) :: !spec_obs
              | _ -> failwith "bad coord")
           | 't' ->
             for _ = 1 to int_of_string rest do
               let (l', ce) = unwrap (layout_tick2 cfg !l) in
               l := l'; incr tick;
+              spec_inputs := KmTick :: !spec_inputs;
+              spec_obs := List.map int_of_n (keycodes l') :: !spec_obs;
               let keys = List.map int_of_n (keycodes l') in
               let ces = (match ce with
                 | CNone -> ""
@@ -233,6 +240,20 @@ let run_lsim (dump : Stdlib.String.t list) (hist : Stdlib.String.t) (out : Buffe
             done
           | _ -> failwith ("bad history token " ^ tok)
         end) (String.split_on_char ' ' hist);
+      (* does the refinement theorem apply to this case (fragment configuration, covered history)?  if so the
+         spec's key lists must equal the model's: a consistency check of extraction and driver, the equality
+         itself is theorem C04_refines_layered_keymap *)
+      (match read_chv2 dump with
+       | Some _ -> Buffer.add_string out "INFO frag=0 histok=0 spec=na\n"
+       | None ->
+         let is = List.rev !spec_inputs in
+         let fr = frag_cfg cfg and hk = hist_ok cfg O is in
+         let verdict =
+           if fr && hk then begin
+             let spec = List.map (List.map int_of_n) (km_run cfg km_init is) in
+             if spec = List.rev !spec_obs then "agree" else "DISAGREE"
+           end else "na" in
+         Buffer.add_string out (Printf.sprintf "INFO frag=%d histok=%d spec=%s\n" (if fr then 1 else 0) (if hk then 1 else 0) verdict));
       let lv = !l in
       Buffer.add_string out (Printf.sprintf "END tick=%d states=[%s] layer=%d default=%d q=%d waiting=%d extra=%d os=%d seqs=%d aq=%d\n"
         !tick (String.concat " " (List.map fmt_state lv.states)) (int_of_n (current_layer lv)) (int_of_n lv.default_layer)
